@@ -119,6 +119,14 @@ class Parts:
             self.add((b'~' if binary else b'') + b'{%d}\r\n' % len(val))
             self.parts.append(bytearray())
             self.add(val)
+        elif spelling == 'litplus0':
+            # number = 1*DIGIT: leading zeros are part of the grammar
+            self.add((b'~' if binary else b'') + b'{%021d+}\r\n' % len(val))
+            self.add(val)
+        elif spelling == 'lit0':
+            self.add((b'~' if binary else b'') + b'{%021d}\r\n' % len(val))
+            self.parts.append(bytearray())
+            self.add(val)
         else:
             raise ValueError(spelling)
         return self
